@@ -202,6 +202,11 @@ def check(ctx):
         listings = [n.id for n in b.nodes('probe') if n.data.get('prim') == 'os.listdir']
         live_beliefs = [n for n in b.nodes('raise') if n.data.get('belief') and
                         n.id in b.live and any(g.dominates(l, n.id) for l in listings)]
+        # (live = on a run-consistent path: a tag chosen by a conditional expression and
+        # tested by an if/elif chain leaves the else branch in the graph but not on any
+        # consistent path)
+        live_beliefs = [n for n in live_beliefs
+                        if feasible_path(b, [g.entry], n.id) is not None]
         ctx.ob('R19.6', '%s: no "cannot happen" raise is reachable from a directory listing'
                % cmd, not live_beliefs, construct=b.func.qualname, text='belief raises',
                node=live_beliefs[0] if live_beliefs else None,
